@@ -57,8 +57,9 @@ inductive Attr where
   /-- anything else: `GlobalAttributeUnknown(name)` (`name` = the leaf under `rssl::` / `vk::`, the first path segment
       otherwise) -/
   | unknown (name : String)
-  /-- an argument that does not evaluate to a `u32` constant: `ExpressionIsNotConstantExpression` -/
-  | notConstant
+  /-- an argument that does not evaluate to a `u32` constant: `ExpressionIsNotConstantExpression` (`at` = the
+      identifier or number the reported location points at) -/
+  | notConstant («at» : String)
   deriving DecidableEq, Repr, Inhabited
 
 /-- `GlobalAttributeResult` -/
@@ -92,7 +93,7 @@ inductive FrontErr where
   | attributeArgumentCount (leaf : String)
   /-- `GlobalAttributeUnknown(name)`; also what `[[rssl::bindless]]` on a cbuffer gives (`name = "bindless"`) -/
   | attributeUnknown (name : String)
-  | attributeNotConstant
+  | attributeNotConstant («at» : String)
   /-- `ModifierConflict(new, .., current)`: "modifier '<new>' may not be used with '<current>'" -/
   | modifierConflict (new current : String)
   deriving DecidableEq, Repr, Inhabited
@@ -103,7 +104,7 @@ def attrLoop : AttrResult → List Attr → Except FrontErr AttrResult
   | r, [] => .ok r
   | _, .badCount leaf :: _ => .error (.attributeArgumentCount leaf)
   | _, .unknown name :: _ => .error (.attributeUnknown name)
-  | _, .notConstant :: _ => .error .attributeNotConstant
+  | _, .notConstant w :: _ => .error (.attributeNotConstant w)
   | r, a :: rest => attrLoop (attrStep r a) rest
 
 def parseAttributes (as : List Attr) : Except FrontErr AttrResult := attrLoop AttrResult.empty as
